@@ -346,6 +346,23 @@ void vertex_case(Ctx& c, long idx) {
                 c.cmp("value-vs-definition", "C15:vertex:value-vs-definition:" + site + ":" + kind, vv, ref, tol, where);
             }
         }
+        // a copy of a computed vertex keeps its own storage: recomputing the original (or the copy) with another window must not disturb the other
+        if (!order.empty()) {
+            const long NMa = order.back(), NMb = (NMa + 1 + (long)r.range(0, 1)) % 4, NMc = (NMb + 2) % 4;
+            Pomerol::Vertex4 Vc(V);
+            bool ok = true; std::string what;
+            try { V.compute(NMb); } catch (const std::exception& e) { ok = false; what = e.what(); }
+            c.check("compute", "C15:vertex:compute-throws:after-copy", ok, [&] { return "Vertex4::compute(" + std::to_string(NMb) + ") on the original after it was copied threw: " + what; });
+            auto sweep = [&](Pomerol::Vertex4& X, long NM, const char* who) {
+                for (long n1 = -NM - 1; n1 <= NM; ++n1) for (long n2 = -NM - 1; n2 <= NM; ++n2) for (long n3 = -NM - 1; n3 <= NM; ++n3) {
+                    cd vs = X(n1, n2, n3), vv = X.value(n1, n2, n3);
+                    c.check("storage-vs-value", std::string("C15:vertex:storage-vs-value:") + who, same_bits(vs, vv), [&] {
+                        std::ostringstream os; os.precision(17); os << "quadruple " << qs(q) << " " << who << " (window " << NM << ") at (" << n1 << "," << n2 << "," << n3 << "): V(...)=(" << vs.real() << "," << vs.imag() << ") V.value(...)=(" << vv.real() << "," << vv.imag() << ")"; return os.str(); });
+                } };
+            if (ok) { sweep(Vc, NMa, "copy-after-original-recomputed"); sweep(V, NMb, "original-recomputed-after-copy"); }
+            try { Vc.compute(NMc); sweep(V, NMb, "original-after-copy-recomputed"); sweep(Vc, NMc, "copy-recomputed"); } catch (const std::exception& e) { c.check("compute", "C15:vertex:compute-throws:copy", false, [&] { return std::string("Vertex4::compute on a copy threw: ") + e.what(); }); }
+            c.count("vertex_copies");
+        }
         if (max_chi > 1e-10 && max_wick > 1e-10) ++nt_quads;
         t_eval += now() - t0;
     }
